@@ -61,7 +61,8 @@ def gen(rng, tier):
         junk = ["ACGTACGT", "##late-directive 1", "chr1\tsrc\tgene\t1\t9\t.\t+\t.\tID=junk", ">chr2", "#c", ""]
         for _ in range(rng.randint(0, 4)):
             items.append(["j", rng.choice(junk)])
-    return {"fmt": fmt, "items": items, "checklines": rng.choice([0, 1, 2, 3, 10]), "form": rng.choice(["path", "string"]),
+    return {"fmt": fmt, "items": items, "checklines": rng.choice([0, 1, 2, 3, 10]), "form": rng.choice(["path", "string", "gz"]),
+            "crlf": rng.random() < 0.2, "gz_members": rng.choice([1, 1, 2]),
             "passes": rng.choice([1, 1, 2]), "end": rng.choice(["exit", "crash", "exit"]), "second_handle": rng.random() < 0.4,
             "abandon": rng.choice([None, None, 0, 1, 2]), "update_after": rng.random() < 0.4,
             "locked_at": rng.choice([None, None, None, 0, 1, 2, 3, 4, 5, 6])}
@@ -90,7 +91,10 @@ def run(case):
     if not flines:
         out["discarded"] = True
         return out
-    text = "\n".join(l for _, l in items) + "\n"
+    nl = "\r\n" if case.get("crlf") else "\n"
+    text = nl.join(l for _, l in items) + nl
+    if case.get("crlf"):
+        probes["crlf_line_ends"] = 1
     cl = case["checklines"]
     # probe: a directive that sits after the first checklines+1 features
     nf = 0
@@ -112,7 +116,7 @@ def run(case):
             return r
 
         n = w.node()
-        spec = {"form": case["form"], "text": text, "name": "in.gff"}
+        spec = {"form": case["form"], "text": text, "name": "in.gff", "members": case.get("gz_members", 1)}
         # 1. the iterator itself
         rq = {"op": "dataiter", "data": spec, "kw": {"checklines": cl}, "passes": case["passes"]}
         if case.get("abandon") is not None:
